@@ -3,9 +3,10 @@
 //! call (the list of calls is extracted from kyrodb_server.rs by the check), and the power-loss model
 //! of persist.rs over the logged file-system effects.
 //!
-//!   cfg interval=<ms>
+//!   cfg interval=<ms> [rot=<bytes>] [snap=<mutations>]
 //!   ins id=<n> x=<n> | del id=<n>           -> ok t=<virtual ms at acknowledgement>
 //!   advance ms=<n>
+//!   restart                                  -> clean stop (shutdown flush, drop) + strict start-up on the directory
 //!   timer calls=<flush_hot_tier:false,cold_tier.sync_wal,...>
 //!   ploss                                    -> ok now=<ms> states=<census>#<census>…  (every directory a power
 //!                                               failure now may leave, recovered strictly by the real code)
@@ -28,6 +29,7 @@ use std::time::Duration;
 struct World {
     root: PathBuf,
     dir: PathBuf,
+    cfg: Option<TieredEngineConfig>,
     engine: Option<TieredEngine>,
     pl: PowerLoss,
     n: usize,
@@ -69,10 +71,11 @@ fn step(w: &mut World, line: &str) -> String {
                 hnsw_distance: DistanceMetric::Euclidean,
                 data_dir: Some(w.dir.to_string_lossy().to_string()),
                 fsync_policy: FsyncPolicy::Periodic(interval),
-                snapshot_interval: 0,
-                max_wal_size_bytes: 0,
+                snapshot_interval: nat(&fs, "snap").unwrap_or(0) as usize,
+                max_wal_size_bytes: nat(&fs, "rot").unwrap_or(0),
                 ..Default::default()
             };
+            w.cfg = Some(config.clone());
             match TieredEngine::new(Box::new(LruCacheStrategy::new(8)), Arc::new(QueryHashCache::new(8, 0.9)), vec![], vec![], config) {
                 Ok(e) => {
                     w.engine = Some(e);
@@ -95,6 +98,22 @@ fn step(w: &mut World, line: &str) -> String {
             match e.delete(id) {
                 Ok(b) => format!("ok t={} existed={}", now_ms(), b as u8),
                 Err(_) => "err".into(),
+            }
+        }
+        // clean stop as the server does it (final flush_hot_tier(true), then the engine is dropped) and start-up on the
+        // same directory (TieredEngine::recover, strict)
+        "restart" => {
+            let Some(cfg) = w.cfg.clone() else { return "bad-op".into() };
+            if let Some(e) = w.engine.take() {
+                let _ = e.flush_hot_tier(true);
+                drop(e);
+            }
+            match TieredEngine::recover(Box::new(LruCacheStrategy::new(8)), Arc::new(QueryHashCache::new(8, 0.9)), &w.dir, cfg) {
+                Ok(e) => {
+                    w.engine = Some(e);
+                    format!("ok t={}", now_ms())
+                }
+                Err(e) => format!("err:{}", format!("{:#}", e).replace(' ', "_").chars().take(80).collect::<String>()),
             }
         }
         "advance" => {
@@ -147,7 +166,7 @@ pub fn run() {
         .unwrap_or_else(|_| std::env::temp_dir().join(format!("kvh.{}", std::process::id())));
     let root = scratch.join(format!("periodic.{}", std::process::id()));
     std::fs::create_dir_all(&root).expect("scratch");
-    let mut w = World { dir: root.join("data"), root: root.clone(), engine: None, pl: PowerLoss::default(), n: 0 };
+    let mut w = World { dir: root.join("data"), root: root.clone(), cfg: None, engine: None, pl: PowerLoss::default(), n: 0 };
     for line in stdin.lock().lines() {
         let line = line.unwrap();
         let t = line.trim();
